@@ -735,13 +735,13 @@ impl Prop for C03 {
         Meta {
             id: "C03",
             level: "fault_enumeration",
-            rule: "seed corpus = generated DLT traces covering every verbose argument type, non-verbose, header shapes, every control service id (request/response, non-verbose and verbose, with bodies for the parsed ones), FLST/FLDA/FLFI, network traces, lifecycle shapes + the plugin-specific message pool of the C19 explorer (NonVerbose / SOME/IP incl. segmented NWST-NWCH-NWEN / CAN / Muniic / Rewrite hits and near misses, 82 messages) + the first 40 (thorough: 200) messages of each repository .dlt example + the repository .asc/.txt/.log examples (prefixes). Mutation operators, each enumerated completely over every seed: (a) every truncation point, (b) every offset x {00,01,7F,80,FF,b^1,b^80}, (b2) every offset x 16-bit {0,FFFF,1} / 32-bit {0,FFFFFFFF} windows, (c) every recorded header/type-info/length/numeric/service-id/timestamp field x boundary table (service ids: all known ids, flag bytes: all 256 values), (d) every ordered pair splice of generated DLT seeds at message boundaries, (e) every pair of fields at most 8 apart x corner values for the file-transfer seed (thorough: every pair of adjacent field corruptions x full boundary table for control and file-transfer seeds), (b3) text seeds: every offset replaced by a multi-byte UTF-8 character (a symbol, two non-ASCII white-space characters, two non-ASCII digits), (g) uncorrupted multi-lifecycle histories: the boot-trace product of the C08 explorer (1 ECU x 1..2 boots, 2 ECUs x up to (2,2) boots x every interleaving) as valid DLT files, (h) every lifecycle event sequence up to depth 3 over the 40-symbol alphabet and up to depth 6 over the suspend/resume alphabet of the C05-C07 explorer (detection + listing only; thorough: depth 4 / 8), (f) grammar products of text lines (incl. all ordered pairs of 14 odd tags incl. short multi-byte ones for logcat and generic logs) (timestamp forms x pid/level/tag/text shapes for logcat, time/channel/id/dlc/data for CAN-ASC incl. header lines, date/level/tag for generic logs). Every case runs the full chain on the real code: reader by extension, header/payload text, argument iteration, to_write, EacStats, lifecycle detection + listing, time sort, 10 filters (matches, match_filters, filter_as_streams), FileTransfer(save)/NonVerbose/SomeIp/CAN/Muniic/Rewrite/Anonymize plugins. Oracle: no panic (overflow checks on), no process death (worker isolation), no allocation request >= 32 MiB whose size the unmutated seeds never request. Non-trivial = at least one message was parsed or a violation occurred.".into(),
+            rule: "seed corpus = generated DLT traces covering every verbose argument type, non-verbose, header shapes, every control service id (request/response, non-verbose and verbose, with bodies for the parsed ones), FLST/FLDA/FLFI, network traces, lifecycle shapes + the plugin-specific message pool of the C19 explorer (NonVerbose / SOME/IP incl. segmented NWST-NWCH-NWEN / CAN / Muniic / Rewrite hits and near misses, 82 messages) + the first 40 (thorough: 200) messages of each repository .dlt example + the repository .asc/.txt/.log examples (prefixes). Mutation operators, each enumerated completely over every seed: (a) every truncation point, (b) every offset x {00,01,7F,80,FF,b^1,b^80}, (b2) every offset x 16-bit {0,FFFF,1} / 32-bit {0,FFFFFFFF} windows, (c) every recorded header/type-info/length/numeric/service-id/timestamp field x boundary table (service ids: all known ids, flag bytes: all 256 values), (d) every ordered pair splice of generated DLT seeds at message boundaries, (e) every pair of fields at most 8 apart x corner values for the file-transfer seed (thorough: every pair of adjacent field corruptions x full boundary table for control and file-transfer seeds), (b3) text seeds: every offset replaced by a multi-byte UTF-8 character (a symbol, two non-ASCII white-space characters, two non-ASCII digits), (g) uncorrupted multi-lifecycle histories: the boot-trace product of the C08 explorer (1 ECU x 1..2 boots, 2 ECUs x up to (2,2) boots x every interleaving) as valid DLT files, (h) every lifecycle event sequence up to depth 3 over the 40-symbol alphabet and up to depth 6 over the suspend/resume alphabet of the C05-C07 explorer (detection + listing only; thorough: depth 4 / 8), (i) uncorrupted traces with 255..1300 distinct ECU ids / application ids of one ECU / context ids of one application, (f) grammar products of text lines (incl. all ordered pairs of 14 odd tags incl. short multi-byte ones for logcat and generic logs) (timestamp forms x pid/level/tag/text shapes for logcat, time/channel/id/dlc/data for CAN-ASC incl. header lines, date/level/tag for generic logs). Every case runs the full chain on the real code: reader by extension, header/payload text, argument iteration, to_write, EacStats, lifecycle detection + listing, time sort, 10 filters (matches, match_filters, filter_as_streams), FileTransfer(save)/NonVerbose/SomeIp/CAN/Muniic/Rewrite/Anonymize plugins. Oracle: no panic (overflow checks on), no process death (worker isolation), no allocation request >= 32 MiB whose size the unmutated seeds never request. Non-trivial = at least one message was parsed or a violation occurred.".into(),
             assumptions: vec!["crash-freedom is decided for the enumerated neighbourhood, not for all byte strings".into(),
                 "FIBEX-configured plugins are re-created every 300 cases (their state carries over within such a window); a panic is re-checked on the single case by replay".into(),
                 "serial-framed DLT is covered through the byte operators on seeds re-framed with DLS markers".into()],
             budget_s: (150, 1800),
             workers: 0,
-            required_landmarks: vec!["parsed_messages", "multi_lifecycle", "op_truncate", "op_subst", "op_field", "op_splice", "op_grammar", "op_wide_subst", "op_multibyte", "op_lc_history", "op_lc_sequence", "op_field_pair", "file_transfer_autosaved", "fmt_asc", "fmt_txt", "fmt_log", "fmt_serial"],
+            required_landmarks: vec!["parsed_messages", "multi_lifecycle", "op_truncate", "op_subst", "op_field", "op_splice", "op_grammar", "op_wide_subst", "op_multibyte", "op_lc_history", "op_id_population", "op_lc_sequence", "op_field_pair", "file_transfer_autosaved", "fmt_asc", "fmt_txt", "fmt_log", "fmt_serial"],
         }
     }
     fn careful(&self) -> bool {
@@ -1015,6 +1015,43 @@ impl Prop for C03 {
             }
             done
         });
+        ctx.end_family(done);
+        if !done {
+            return;
+        }
+        // (i) valid traces with large id populations (more distinct ECUs / application ids of one ECU / context ids of
+        // one application than a 3-digit pseudonym, a u8 or a small table can number)
+        ctx.begin_family("id_populations", "uncorrupted traces with n distinct ECU ids / APIDs of one ECU / CTIDs of one APID, n in {255, 256, 257, 999, 1000, 1001, 1300}");
+        for kind in 0..3usize {
+            for n in [255usize, 256, 257, 999, 1000, 1001, 1300] {
+                if ctx.mine() {
+                    let a = b"ABCDEFGHIJKLMNOPQRSTUVWXYZ0123456789";
+                    let id = |i: usize| -> [u8; 4] { [a[i % 36], a[(i / 36) % 36], a[(i / 1296) % 36], b'x'] };
+                    let mut b = Vec::with_capacity(n * 40);
+                    for i in 0..n {
+                        let ecu = if kind == 0 { id(i) } else { *b"ECU1" };
+                        let spec = MsgSpec {
+                            htyp: VERS1 | UEH | WEID | WTMS,
+                            storage_ecu: ecu,
+                            hdr_ecu: ecu,
+                            apid: if kind == 1 { id(i) } else { *b"APP1" },
+                            ctid: if kind == 2 { id(i) } else { *b"CTX1" },
+                            verb_mstp_mtin: 0x41,
+                            mcnt: i as u8,
+                            timestamp: 10_000 + i as u32 * 10,
+                            secs: 1_650_000_000 + (i / 1000) as u32,
+                            micros: (i % 1000) as u32 * 1000,
+                            payload: vec![i as u8],
+                            ..Default::default()
+                        };
+                        b.extend_from_slice(&spec.to_bytes());
+                    }
+                    ctx.landmark("op_id_population");
+                    judge(ctx, &mut sh, "id_population", "dlt", &b, &|| json!({"op": "id_population", "seed": "id_population", "ext": "dlt", "distinct": (["ecu", "apid", "ctid"][kind]), "n": n, "bytes_hex": hexs(&b)}));
+                    check_time!(done);
+                }
+            }
+        }
         ctx.end_family(done);
         if !done {
             return;
